@@ -597,7 +597,11 @@ def _str_endswith(ex, st, args, kw, node):
 
 
 def _arr_tolist(ex, st, args, kw, node):
-    raise Undecided("tolist()")
+    """a Python list of the elements: modelled as a fresh sequence with the same content (a list of floats is only ever read back element-wise)"""
+    d = ex.arr(st, args[0])
+    if d.rank != 1:
+        raise Undecided("tolist() of a 2-D array")
+    return ex.alloc_arr(st, d.shape, d.data, d.elem, "fresh", tag="tolist")
 
 
 def _arr_copy(ex, st, args, kw, node):
